@@ -15,7 +15,21 @@ import (
 
 // seededRand replaces crypto/rand.Reader for the whole worker so that the
 // sync marker NewFileWriter draws is a function of the plan (seam S4).
-type seededRand struct{ state uint64 }
+type seededRand struct {
+	state uint64
+	// zeroTail: the next 16-byte draw (a sync marker) ends in this many zero
+	// bytes. A marker is 16 arbitrary bytes; one in six plans uses a marker
+	// with a zero tail (up to all sixteen), which a zero-initialised
+	// comparison buffer would match after a short read.
+	zeroTail int
+}
+
+func tailFor(seed uint64) int {
+	if splitmix(seed^0x7a11)%6 != 0 {
+		return 0
+	}
+	return 1 + int(splitmix(seed^0x7a12)%16)
+}
 
 // Read is //go:norace: under the race build several goroutines may create file
 // writers; the token scheduler runs them one at a time, and the marker is
@@ -27,6 +41,12 @@ func (s *seededRand) Read(p []byte) (int, error) {
 		s.state = splitmix(s.state)
 		p[i] = byte(s.state >> 32)
 	}
+	if len(p) == 16 && s.zeroTail > 0 {
+		for i := 16 - s.zeroTail; i < 16; i++ {
+			p[i] = 0
+		}
+		s.zeroTail = 0
+	}
 	return len(p), nil
 }
 
@@ -35,10 +55,13 @@ var pinnedRand = &seededRand{}
 func installRandSeam() { crand.Reader = pinnedRand }
 
 // pinSync makes the next marker drawn a function of seed.
-func pinSync(seed uint64) { pinnedRand.state = splitmix(seed ^ 0x5151) }
+func pinSync(seed uint64) {
+	pinnedRand.state = splitmix(seed ^ 0x5151)
+	pinnedRand.zeroTail = tailFor(seed)
+}
 
 func syncFromSeed(seed uint64) (s [16]byte) {
-	r := seededRand{state: splitmix(seed ^ 0x5151)}
+	r := seededRand{state: splitmix(seed ^ 0x5151), zeroTail: tailFor(seed)}
 	r.Read(s[:])
 	return
 }
@@ -66,6 +89,8 @@ type FileSpec struct {
 	// PadLens (type Padded only): record i carries PadLens[i mod len] bytes of
 	// padding — blocks far larger than any internal chunk or buffer size.
 	PadLens []int `json:"pad_lens,omitempty"`
+	// PadZero: the padding is all zeros (compresses at the codec's maximum ratio).
+	PadZero bool `json:"pad_zero,omitempty"`
 }
 
 // BuiltFile is a generated artifact plus what the harness knows about it.
@@ -150,6 +175,7 @@ func genBigFileSpec(r *Rng) FileSpec {
 	for i := 0; i < fs.N; i++ {
 		fs.PadLens = append(fs.PadLens, r.PickInt([]int{70000, 66000, 65536, 131073, 200000, 65530, 5}))
 	}
+	fs.PadZero = r.P(1, 3)
 	return fs
 }
 
@@ -170,6 +196,9 @@ func BuildFileWith(fs FileSpec, values []reflect.Value) (*BuiltFile, error) {
 			pad := make([]byte, fs.PadLens[i%len(fs.PadLens)])
 			x := fs.VSeed + uint64(i)
 			for k := range pad {
+				if fs.PadZero {
+					break
+				}
 				if k%64 == 0 {
 					x = splitmix(x)
 				}
